@@ -4,15 +4,26 @@
 (* is dumped as one implementation test (C02, C03, C15).                    *)
 EXTENDS SpecGraph, Json
 
-CONSTANTS MaxB, DefChoices
+CONSTANTS MaxB, DefChoices,
+          DeclRootless  \* TRUE (with RootExplicit): declaration-like nodes may
+                        \* be base-less and never name Interface themselves
+                        \* (class specifications: implementedBy(object) has no
+                        \* bases) while interfaces always list a base.  In
+                        \* this universe "a C3 linearisation exists" is not
+                        \* well defined (the literal graph and the identically
+                        \* shaped class hierarchy, where everything derives
+                        \* from object, differ), so only the unambiguous part
+                        \* of C03 is asserted: SroValid.
 
 SeqsNoDup(S, k) ==
     UNION {{s \in [1..m -> S] : NoDup(s)} : m \in 0..k}
 
+Rootless(n) == DeclRootless /\ ~IsIface[n]
 Lower(n) == {m \in AllNodes : /\ m < n
                                /\ (IsIface[n] => IsIf(m))
-                               /\ (m = Root => RootExplicit)}
-BaseLists(n) == {s \in SeqsNoDup(Lower(n), MaxB) : RootExplicit => s # <<>>}
+                               /\ (m = Root => RootExplicit /\ ~Rootless(n))}
+BaseLists(n) == {s \in SeqsNoDup(Lower(n), MaxB) :
+                    (RootExplicit /\ ~Rootless(n)) => s # <<>>}
 
 RECURSIVE AllB(_)
 AllB(k) == IF k = 0 THEN {[n \in {0} |-> <<>>]}
